@@ -108,6 +108,7 @@ def write_path(segs, sep=".", style=0):
     """Render an AST path.  sep is "." or "/"."""
     out = "/" if sep == "/" else ""
     first = True
+    prev = None
     for seg in segs:
         text, needs_sep = write_segment(seg, sep, style)
         if seg[0] == "anchor" and first:
@@ -117,8 +118,12 @@ def write_path(segs, sep=".", style=0):
             out += sep
         if first and sep == "." and text.startswith("/"):
             text = "\\" + text     # else the path would read as slash notation
+        if (prev is not None and prev[0] == "collector" and seg[0] == "key"
+                and text[:1] in ("+", "-")):
+            text = "\\" + text     # else it would read as a Collector operator
         out += text
         first = False
+        prev = seg
     return out
 
 
